@@ -63,14 +63,439 @@ end
 /-- every page of the bucket's own tree and of every paged nested bucket is laid out in the file
     (with the real bucket values in the bucket elements); a paged bucket's header names the page
     of its root node, sequence numbers fit their field; an inline bucket is one leaf without
-    nested buckets -/
+    nested buckets, with fewer than 0xFFFF elements (the u16 count of the inline page header; real
+    inline buckets are smaller than a quarter page) whose flags fit their u32 field -/
 def LaidBk (f : File) (ps hwm : Nat) : Nat → Bk → Prop
   | 0, _ => False
   | fu+1, b =>
     b.seq < 2^64 ∧
     (b.root ≠ 0 → (b.root = b.tree.hd.pgid ∧ C12Tree.Laid f ps (realTree b) ∧ FitsG ps hwm (realTree b))) ∧
-    (b.root = 0 → (∃ h items, b.tree = .leaf h items) ∧ b.opened = []) ∧
+    (b.root = 0 → (∃ h items, b.tree = .leaf h items ∧ items.length < 0xFFFF ∧ ∀ i ∈ items, i.flags < 2^32) ∧
+      b.opened = []) ∧
     ∀ p ∈ b.opened, LaidBk f ps hwm fu p.2
+
+/-! ### the on-disk tree keeps the shape of the bucket's tree -/
+
+/-- one element as it is on disk -/
+def realItem (sub : Bytes → Option Bk) (i : Item) : Item :=
+  if i.flags % 2 = 1 then
+    match sub i.key with
+    | some c => { i with val := bucketVal c.root c.seq (inlineItems c) }
+    | none => i
+  else i
+
+theorem realizeN_leaf (sub : Bytes → Option Bk) (h : Hd) (items : List Item) :
+    realizeN sub (.leaf h items) = .leaf h (items.map (realItem sub)) := by
+  rw [realizeN]; rfl
+
+theorem realizeN_branch (sub : Bytes → Option Bk) (h : Hd) (kids : List (Bytes × N)) :
+    realizeN sub (.branch h kids) = .branch h (realizeKids sub kids) := by
+  rw [realizeN]
+
+theorem realizeKids_cons (sub : Bytes → Option Bk) (s : Bytes) (c : N) (r : List (Bytes × N)) :
+    realizeKids sub ((s, c) :: r) = (s, realizeN sub c) :: realizeKids sub r := by
+  rw [realizeKids]
+
+/-- keys and flags stay -/
+theorem realItem_key (sub : Bytes → Option Bk) (i : Item) : (realItem sub i).key = i.key := by
+  unfold realItem
+  split
+  · split <;> rfl
+  · rfl
+
+theorem realItem_flags (sub : Bytes → Option Bk) (i : Item) : (realItem sub i).flags = i.flags := by
+  unfold realItem
+  split
+  · split <;> rfl
+  · rfl
+
+theorem realItem_plain (sub : Bytes → Option Bk) (i : Item) (h : ¬ i.flags % 2 = 1) : realItem sub i = i := by
+  unfold realItem; rw [if_neg h]
+
+theorem realItem_bucket (sub : Bytes → Option Bk) (i : Item) (c : Bk) (h : i.flags % 2 = 1)
+    (hc : sub i.key = some c) : (realItem sub i).val = bucketVal c.root c.seq (inlineItems c) := by
+  unfold realItem; rw [if_pos h, hc]
+
+/-- `realizeN` keeps the header of the node -/
+theorem realizeN_hd (sub : Bytes → Option Bk) : ∀ t : N, (realizeN sub t).hd = t.hd
+  | .leaf h items => by rw [realizeN_leaf]; rfl
+  | .branch h kids => by rw [realizeN_branch]; rfl
+
+open Bolt.BTree.OpsL in
+mutual
+/-- the elements of the on-disk tree: those of the bucket's tree, bucket elements with their
+    real value -/
+theorem realizeN_flatten (sub : Bytes → Option Bk) : ∀ t : N,
+    flatten (realizeN sub t) = (flatten t).map (realItem sub)
+  | .leaf h items => by rw [realizeN_leaf, flatten_leaf, flatten_leaf]
+  | .branch h kids => by rw [realizeN_branch, flatten_branch, flatten_branch, realizeKids_flatten sub kids]
+theorem realizeKids_flatten (sub : Bytes → Option Bk) : ∀ kids : List (Bytes × N),
+    flattenKids (realizeKids sub kids) = (flattenKids kids).map (realItem sub)
+  | [] => by rw [realizeKids, flattenKids_nil]; rfl
+  | (s, c) :: r => by
+    rw [realizeKids_cons, flattenKids_cons, flattenKids_cons, realizeN_flatten sub c,
+      realizeKids_flatten sub r, List.map_append]
+end
+
+open Bolt.BTree.OpsL in
+mutual
+theorem realizeN_depth (sub : Bytes → Option Bk) : ∀ t : N, depth (realizeN sub t) = depth t
+  | .leaf h items => by rw [realizeN_leaf, depth_leaf, depth_leaf]
+  | .branch h kids => by rw [realizeN_branch, depth_branch, depth_branch, realizeKids_depth sub kids]
+theorem realizeKids_depth (sub : Bytes → Option Bk) : ∀ kids : List (Bytes × N),
+    depthKids (realizeKids sub kids) = depthKids kids
+  | [] => by rw [realizeKids]
+  | (s, c) :: r => by
+    rw [realizeKids_cons, depthKids_cons, depthKids_cons, realizeN_depth sub c, realizeKids_depth sub r]
+end
+
+theorem realizeKids_keys (sub : Bytes → Option Bk) : ∀ kids : List (Bytes × N),
+    (realizeKids sub kids).map (·.1) = kids.map (·.1)
+  | [] => by rw [realizeKids]
+  | (s, c) :: r => by rw [realizeKids_cons, List.map_cons, List.map_cons, realizeKids_keys sub r]
+
+theorem realizeKids_length (sub : Bytes → Option Bk) (kids : List (Bytes × N)) :
+    (realizeKids sub kids).length = kids.length := by
+  have := congrArg List.length (realizeKids_keys sub kids)
+  simpa using this
+
+theorem realizeKids_headDepth (sub : Bytes → Option Bk) : ∀ kids : List (Bytes × N),
+    ((realizeKids sub kids).head?.map (fun p => depth p.2)).getD 0 = (kids.head?.map (fun p => depth p.2)).getD 0
+  | [] => by rw [realizeKids]
+  | (s, c) :: r => by
+    rw [realizeKids_cons]
+    simp only [List.head?_cons, Option.map_some, Option.getD_some]
+    exact realizeN_depth sub c
+
+theorem realizeN_firstKey (sub : Bytes → Option Bk) : ∀ t : N, (realizeN sub t).firstKey = t.firstKey
+  | .leaf h items => by
+    rw [realizeN_leaf]
+    cases items with
+    | nil => rfl
+    | cons i r =>
+      simp only [N.firstKey, List.map_cons, List.head?_cons, Option.map_some, Option.getD_some]
+      exact realItem_key sub i
+  | .branch h kids => by
+    rw [realizeN_branch]
+    cases kids with
+    | nil => rw [realizeKids]
+    | cons q r =>
+      obtain ⟨s, c⟩ := q
+      rw [realizeKids_cons]; rfl
+
+theorem realItems_keys (sub : Bytes → Option Bk) (items : List Item) :
+    (items.map (realItem sub)).map (·.key) = items.map (·.key) := by
+  rw [List.map_map]
+  apply List.map_congr_left
+  intro i _
+  exact realItem_key sub i
+
+mutual
+/-- the on-disk tree is committed exactly when the bucket's tree is -/
+theorem realizeN_committed (sub : Bytes → Option Bk) : ∀ (root : Bool) (t : N),
+    committedN root (realizeN sub t) = committedN root t
+  | root, .leaf h items => by
+    rw [realizeN_leaf, committedN, committedN, realItems_keys, List.isEmpty_map, List.all_map]
+    congr 1
+    apply List.all_congr rfl
+    intro i
+    simp only [Function.comp, realItem_key]
+  | root, .branch h kids => by
+    rw [realizeN_branch, committedN, committedN, realizeKids_keys, realizeKids_length,
+      realizeKids_headDepth, realizeKids_committed sub kids]
+theorem realizeKids_committed (sub : Bytes → Option Bk) : ∀ (kids : List (Bytes × N)) (d : Nat),
+    committedKids (realizeKids sub kids) d = committedKids kids d
+  | [], d => by rw [realizeKids]
+  | (s, c) :: r, d => by
+    rw [realizeKids_cons, committedKids, committedKids, realizeN_firstKey, realizeN_depth,
+      realizeN_committed sub false c, realizeKids_committed sub r d]
+end
+
+/-! ### the reader on an on-disk tree whose bucket elements hold real bucket values -/
+
+/-- what the reader makes of one element, given the content `cont` of the nested buckets by name -/
+def entOf (cont : Bytes → SVal) (i : Item) : Bytes × SVal :=
+  if i.flags % 2 = 1 then (i.key, cont i.key) else (i.key, .val i.val)
+
+theorem entOf_fst (cont : Bytes → SVal) (i : Item) : (entOf cont i).1 = i.key := by
+  unfold entOf; split <;> rfl
+
+theorem entOf_real (cont : Bytes → SVal) (sub : Bytes → Option Bk) (i : Item) :
+    entOf cont (realItem sub i) = entOf cont i := by
+  by_cases h : i.flags % 2 = 1
+  · unfold entOf
+    rw [realItem_flags, realItem_key, if_pos h, if_pos h]
+  · rw [realItem_plain sub i h]
+
+/-- what the tree-level induction needs of a nested bucket `c` with content `v`: its header
+    fields fit; if it has pages, the reader started at its root page with fuel `K` or more returns
+    the entries of `v` and adds no error; if it is inline, it is one leaf of plain elements within
+    the field widths and `v` holds exactly these -/
+def ChildOK (f : File) (ps hwm K : Nat) (c : Bk) (v : SVal) : Prop :=
+  c.seq < 2^64 ∧
+  (c.root ≠ 0 → c.root < 2^64 ∧ ∃ E, v = .bkt c.seq E ∧ ∀ (fuel : Nat) (ph : Phys), K ≤ fuel →
+      ∃ ph', decodeTree f ps hwm fuel c.root ph = (E, ph') ∧ ph'.errors = ph.errors) ∧
+  (c.root = 0 → ∃ h items, c.tree = .leaf h items ∧ items.length < 0xFFFF ∧
+      (∀ i ∈ items, i.flags % 2 = 0 ∧ i.flags < 2^32) ∧ Bolt.BTree.OpsL.SortedI items ∧
+      v = .bkt c.seq (items.map (fun i => (i.key, SVal.val i.val))))
+
+theorem fitsG_pgid (ps hwm : Nat) : ∀ (c : N), FitsG ps hwm c → c.hd.pgid < 2^64
+  | .leaf h items, hf => by rw [FitsG] at hf; simp only [N.hd]; omega
+  | .branch h kids, hf => by rw [FitsG] at hf; simp only [N.hd]; omega
+
+theorem fitsGKids_pgid (ps hwm : Nat) : ∀ (kids : List (Bytes × N)), FitsGKids ps hwm kids →
+    ∀ p ∈ kids, p.2.hd.pgid < 2^64
+  | [], _, p, hp => by cases hp
+  | (s, c) :: r, hf, p, hp => by
+    rw [FitsGKids] at hf
+    rcases List.mem_cons.mp hp with rfl | hp
+    · exact fitsG_pgid ps hwm _ hf.1
+    · exact fitsGKids_pgid ps hwm r hf.2 p hp
+
+/-- one element of an on-disk leaf: the reader returns `entOf cont` of it and adds no error -/
+theorem decode_item (f : File) (ps hwm K fuel : Nat) (cont : Bytes → SVal) (i : Item) (ph : Phys)
+    (hK : K ≤ fuel) (hlen : i.val.length < 2^32)
+    (hb : i.flags % 2 = 1 → ∃ c, i.val = bucketVal c.root c.seq (inlineItems c) ∧
+      ChildOK f ps hwm K c (cont i.key)) :
+    ∃ ph', Bolt.FormatBkL.decodeItem f ps hwm fuel (C12Node.toLeafElem i) ph = (entOf cont i, ph') ∧
+      ph'.errors = ph.errors := by
+  by_cases hfl : i.flags % 2 = 1
+  · obtain ⟨c, hv, hseq, hp, hi⟩ := hb hfl
+    have hent : entOf cont i = (i.key, cont i.key) := by unfold entOf; rw [if_pos hfl]
+    by_cases hr : c.root = 0
+    · obtain ⟨h, items, ht, hn, hfl', hs, hv'⟩ := hi hr
+      have hin : inlineItems c = some items := by unfold inlineItems; rw [if_pos hr, ht]
+      rw [hin, hr] at hv
+      refine ⟨ph, ?_, rfl⟩
+      rw [hent, hv']
+      have := Bolt.FormatBkL.decodeItem_inline f ps hwm fuel (C12Node.toLeafElem i) ph c.seq
+        (items.map C12Node.toLeafElem) hfl hv hseq (by simpa using hn) hlen
+        (by intro x hx; obtain ⟨y, hy, rfl⟩ := List.mem_map.mp hx; exact hfl' y hy)
+        (by rw [List.map_map]; exact (Bolt.BTree.OpsL.sortedKeys_items items).mpr hs)
+      rw [this, List.map_map]
+      rfl
+    · obtain ⟨hr64, E, hv', hdec⟩ := hp hr
+      have hin : inlineItems c = none := by unfold inlineItems; rw [if_neg hr]
+      rw [hin] at hv
+      obtain ⟨ph', h1, h2⟩ := hdec fuel ph hK
+      refine ⟨ph', ?_, h2⟩
+      rw [hent, hv']
+      exact Bolt.FormatBkL.decodeItem_paged f ps hwm fuel (C12Node.toLeafElem i) ph ph' c.root c.seq E
+        hfl hv hr hr64 hseq h1
+  · refine ⟨ph, ?_, rfl⟩
+    rw [Bolt.FormatBkL.decodeItem_plain f ps hwm fuel _ ph hfl]
+    unfold entOf; rw [if_neg hfl]; rfl
+
+open Bolt.FormatTreeL Bolt.BTree.OpsL in
+mutual
+/-- the reader on any node of a committed on-disk tree whose bucket elements hold the real
+    values of nested buckets that are read back correctly (`ChildOK`) with fuel `K` -/
+theorem decode_nodeG (f : File) (ps hwm K : Nat) (cont : Bytes → SVal) (hps : 0 < ps) :
+    ∀ (t : N) (root : Bool) (fuel : Nat) (ph : Phys),
+    C12Tree.Laid f ps t → FitsG ps hwm t → committedN root t = true → SortedI (flatten t) →
+    depth t + K ≤ fuel →
+    (∀ i ∈ flatten t, i.flags % 2 = 1 → ∃ c, i.val = bucketVal c.root c.seq (inlineItems c) ∧
+      ChildOK f ps hwm K c (cont i.key)) →
+    ∃ ph', decodeTree f ps hwm fuel t.hd.pgid ph = ((flatten t).map (entOf cont), ph') ∧
+      ph'.errors = ph.errors
+  | .leaf h items, root, fuel, ph, hl, hf, hc, hs, hd, hb => by
+    rw [C12Tree.Laid] at hl; rw [FitsG] at hf
+    obtain ⟨f1, f2, f3, f4, f5, f6⟩ := hf
+    obtain ⟨c1, c2, c3, c4, c5⟩ := (committedN_leaf ..).mp hc
+    rw [flatten_leaf] at hb ⊢
+    rw [depth_leaf] at hd
+    obtain ⟨fuel', rfl⟩ : ∃ k, fuel = k + 1 := ⟨fuel - 1, by omega⟩
+    have hsz : (Enc.leafPage h.pgid (C12Tree.ovfOf ps (.leaf h items)) (items.map C12Node.toLeafElem)).length ≤
+        (C12Tree.ovfOf ps (.leaf h items) + 1) * ps := by
+      rw [C12Node.leaf_bytes_eq_size h]; exact C12Tree.size_le_span ps _ hps
+    have hstep := Bolt.FormatBkL.decodeTree_leafG f ps hwm fuel' h.pgid (C12Tree.ovfOf ps (.leaf h items)) ph
+      (items.map C12Node.toLeafElem) hps hl f1 f2 f3 (by simpa using f4) f5 hsz
+      (by intro e he; obtain ⟨i, hi, rfl⟩ := List.mem_map.mp he; exact f6 i hi)
+      (by rw [List.map_map]; exact (sortedKeys_items items).mpr c4)
+      (by intro e he; obtain ⟨i, hi, rfl⟩ := List.mem_map.mp he; exact c5 i hi)
+    have hitems := Bolt.FormatBkL.decodeLeafItems_spec f ps hwm fuel'
+      (fun e => entOf cont { key := e.key, val := e.val, flags := e.flags })
+      (items.map C12Node.toLeafElem)
+      { pages := ph.pages ++ [(h.pgid, C12Tree.ovfOf ps (.leaf h items), V2.leafPageFlag)], errors := ph.errors }
+      (by
+        intro e he ph0
+        obtain ⟨i, hi, rfl⟩ := List.mem_map.mp he
+        have hlen : i.val.length < 2^32 := by
+          have h1 := leafData_mem_le (items.map C12Node.toLeafElem) (C12Node.toLeafElem i)
+            (List.mem_map_of_mem hi)
+          rw [leafPage_length] at hsz
+          have : (C12Node.toLeafElem i).val = i.val := rfl
+          rw [this] at h1
+          omega
+        exact decode_item f ps hwm K fuel' cont i ph0 (by omega) hlen (hb i hi))
+    obtain ⟨ph', h1, h2⟩ := hitems
+    refine ⟨ph', ?_, h2⟩
+    show decodeTree f ps hwm (fuel' + 1) h.pgid ph = _
+    rw [hstep, h1, List.map_map]
+    rfl
+  | .branch h kids, root, fuel, ph, hl, hf, hc, hs, hd, hb => by
+    rw [C12Tree.Laid] at hl; rw [FitsG] at hf
+    obtain ⟨hl1, hl2⟩ := hl
+    obtain ⟨f1, f2, f3, f4, f5, f6⟩ := hf
+    obtain ⟨c1, c2, c3, c4, c5⟩ := (committedN_branch ..).mp hc
+    rw [flatten_branch] at hs hb ⊢
+    rw [depth_branch] at hd
+    obtain ⟨fuel', rfl⟩ : ∃ k, fuel = k + 1 := ⟨fuel - 1, by omega⟩
+    have hstep := decodeTree_branch f ps hwm fuel' h.pgid (C12Tree.ovfOf ps (.branch h kids)) ph
+      (kids.map (fun (p : Bytes × N) => ({ key := p.1, pgid := p.2.hd.pgid } : BranchElem))) hps hl1 f1 f2 f3
+      (by simpa using f4) f5
+      (by rw [C12Node.branch_bytes_eq_size h kids (fun c => c.hd.pgid)]; exact C12Tree.size_le_span ps _ hps)
+      (by intro e he; obtain ⟨p, hp, rfl⟩ := List.mem_map.mp he; exact fitsGKids_pgid ps hwm kids f6 p hp)
+      (by rw [List.map_map]; exact (sortedKeys_kids kids).mpr c4)
+      (by intro e; rw [List.map_eq_nil_iff] at e; rw [e] at c3; simp at c3)
+    obtain ⟨ph', hk, he⟩ := decode_kidsG f ps hwm K cont hps kids _ fuel'
+      { pages := ph.pages ++ [(h.pgid, C12Tree.ovfOf ps (.branch h kids), V2.branchPageFlag)], errors := ph.errors }
+      hl2 f6 c5 hs (by omega) hb
+    refine ⟨ph', ?_, he⟩
+    show decodeTree f ps hwm (fuel' + 1) h.pgid ph = _
+    rw [hstep, hk]
+/-- the reader on the children of a branch of such a tree -/
+theorem decode_kidsG (f : File) (ps hwm K : Nat) (cont : Bytes → SVal) (hps : 0 < ps) :
+    ∀ (kids : List (Bytes × N)) (d fuel : Nat) (ph : Phys),
+    C12Tree.LaidKids f ps kids → FitsGKids ps hwm kids → committedKids kids d = true →
+    SortedI (flattenKids kids) → depthKids kids + K ≤ fuel →
+    (∀ i ∈ flattenKids kids, i.flags % 2 = 1 → ∃ c, i.val = bucketVal c.root c.seq (inlineItems c) ∧
+      ChildOK f ps hwm K c (cont i.key)) →
+    ∃ ph', decodeKids f ps hwm fuel
+        (kids.map (fun p => ({ key := p.1, pgid := p.2.hd.pgid } : BranchElem))) ph =
+      ((flattenKids kids).map (entOf cont), ph') ∧ ph'.errors = ph.errors
+  | [], d, fuel, ph, _, _, _, _, _, _ => by
+    rw [flattenKids_nil, List.map_nil, decodeKids_nil]
+    exact ⟨ph, rfl, rfl⟩
+  | (s, c) :: r, d, fuel, ph, hl, hf, hc, hs, hd, hb => by
+    rw [C12Tree.LaidKids] at hl; rw [FitsGKids] at hf
+    obtain ⟨h1, h2, h3, h4⟩ := (committedKids_cons ..).mp hc
+    rw [flattenKids_cons] at hs hb ⊢
+    obtain ⟨hs1, hs2, hs3⟩ := List.pairwise_append.mp hs
+    rw [depthKids_cons] at hd
+    obtain ⟨ph1, hc', e1⟩ := decode_nodeG f ps hwm K cont hps c false fuel ph hl.1 hf.1 h3 hs1 (by omega)
+      (fun i hi => hb i (List.mem_append_left _ hi))
+    obtain ⟨ph2, hr, e2⟩ := decode_kidsG f ps hwm K cont hps r d fuel ph1 hl.2 hf.2 h4 hs2 (by omega)
+      (fun i hi => hb i (List.mem_append_right _ hi))
+    refine ⟨ph2, ?_, e2.trans e1⟩
+    rw [List.map_cons, decodeKids_cons f ps hwm fuel _ _ ph _ _ hc' ?first ?next, hr]
+    · simp only [List.map_append]
+    case first =>
+      obtain ⟨x, rest, e1, e2⟩ := committedN_head c h3
+      intro kv hkv
+      rw [e1] at hkv
+      simp only [List.map_cons, List.head?_cons, Option.mem_def, Option.some.injEq] at hkv
+      subst hkv
+      show Bytes.lt (entOf cont x).1 s = false
+      rw [entOf_fst, e2, ← h1]; exact Bytes.lt_irrefl s
+    case next =>
+      intro nxt hn kv hkv
+      cases r with
+      | nil => simp at hn
+      | cons q r' =>
+        obtain ⟨y, rest, e1, e2⟩ := committedKids_head (q :: r') d (by simp) h4
+        simp only [List.head?_cons, Option.map_some, Option.getD_some] at e2
+        simp only [List.map_cons, List.head?_cons, Option.mem_def, Option.some.injEq] at hn
+        subst hn
+        obtain ⟨x, hx, rfl⟩ := List.mem_map.mp hkv
+        show Bytes.lt (entOf cont x).1 q.1 = true
+        rw [entOf_fst, ← e2]
+        exact hs3 x hx y (by rw [e1]; simp)
+end
+
+/-! ### the reader on a bucket with its nested buckets -/
+
+/-- fuel that suffices for a bucket of nesting fuel `fu`: under `origShapeOk (f+1)` the bucket's
+    own tree is at most `f` levels deep, and a nested paged bucket goes on with what is left -/
+def need : Nat → Nat
+  | 0 => 0
+  | f+1 => f + need f
+
+theorem need_le : ∀ fu : Nat, need fu ≤ fu * (fu + 1)
+  | 0 => Nat.zero_le _
+  | f+1 => by
+    have ih := need_le f
+    rw [need]
+    have e : (f + 1) * (f + 1 + 1) = f * (f + 1) + 2 * f + 2 := by
+      rw [Nat.add_mul, Nat.mul_add f (f + 1) 1]; omega
+    omega
+
+/-- the content of the nested bucket named `k`, as `absBk` computes it -/
+def contOf (X : Bk) (f : Nat) (p : List Bytes) (o : List (Bytes × Bk)) (k : Bytes) : SVal :=
+  match lookupBk k o with
+  | some c => absBk X f (p ++ [k]) c
+  | none =>
+    match bkAt (p ++ [k]) X with
+    | some c => absBk c f [] c
+    | none => .bkt 0 []
+
+theorem absBk_ents (X : Bk) (f : Nat) (p : List Bytes) (b : Bk) :
+    absBk X (f+1) p b = .bkt b.seq ((flatten b.tree).map (entOf (contOf X f p b.opened))) := by
+  rw [absBk]; rfl
+
+open Bolt.FormatBkL Bolt.BTree.OpsL in
+/-- every bucket of a start-of-transaction state that is laid out in the file is read back: its
+    header fields fit, and the reader returns its content (`ChildOK`) -/
+theorem bucket_ok (f : File) (ps hwm : Nat) (hps : 0 < ps) : ∀ (fu : Nat) (b X : Bk) (p : List Bytes),
+    origShapeOk fu b = true → LaidBk f ps hwm fu b → ChildOK f ps hwm (need fu) b (absBk X fu p b)
+  | 0, b, X, p, ho, _ => by rw [origShapeOk, origOkG_zero] at ho; cases ho
+  | fu+1, b, X, p, ho, hl => by
+    obtain ⟨hcm, _, hdep, hnames, hkids⟩ := (origOkG_succ false fu b).mp ho
+    rw [LaidBk] at hl
+    obtain ⟨hseq, hpaged, hinl, hsub⟩ := hl
+    rw [absBk_ents]
+    refine ⟨hseq, ?_, ?_⟩
+    · intro hr
+      obtain ⟨hroot, hlaid, hfits⟩ := hpaged hr
+      have hpg : b.root < 2^64 := by
+        rw [hroot, ← realizeN_hd (fun n => lookupBk n b.opened)]; exact fitsG_pgid _ _ _ hfits
+      refine ⟨hpg, _, rfl, ?_⟩
+      intro fuel ph hK
+      rw [need] at hK
+      have hdec := decode_nodeG f ps hwm (need fu) (contOf X fu p b.opened) hps (realTree b) true fuel ph
+        hlaid hfits
+        (by rw [realTree, realizeN_committed]; exact hcm.1)
+        ((sortedKeys_items _).mp (by rw [realTree, realizeN_flatten, realItems_keys]; exact hcm.2))
+        (by rw [realTree, realizeN_depth]; omega)
+        (by
+          rw [realTree, realizeN_flatten]
+          intro i' hi' hfl
+          obtain ⟨i, hi, rfl⟩ := List.mem_map.mp hi'
+          rw [realItem_flags] at hfl
+          have hn := mem_bucketNames hi hfl
+          rw [← hnames] at hn
+          obtain ⟨c, hc⟩ := lookupBk_of_name hn
+          have hm := lookupBk_mem hc
+          refine ⟨c, realItem_bucket _ i c hfl hc, ?_⟩
+          rw [realItem_key]
+          have : contOf X fu p b.opened i.key = absBk X fu (p ++ [i.key]) c := by
+            unfold contOf; rw [hc]
+          rw [this]
+          exact bucket_ok f ps hwm hps fu c X (p ++ [i.key]) (hkids _ hm) (hsub _ hm))
+      obtain ⟨ph', h1, h2⟩ := hdec
+      refine ⟨ph', ?_, h2⟩
+      rw [hroot, ← realizeN_hd (fun n => lookupBk n b.opened) b.tree]
+      rw [realTree, realizeN_flatten, List.map_map] at h1
+      rw [h1]
+      congr 1
+      apply List.map_congr_left
+      intro i _
+      exact entOf_real _ _ i
+    · intro hr
+      obtain ⟨⟨h, items, ht, hn, hfl⟩, hop⟩ := hinl hr
+      rw [hop] at hnames
+      have heven := bucketNames_nil hnames.symm
+      rw [ht, flatten_leaf] at heven
+      refine ⟨h, items, ht, hn, fun i hi => ⟨heven i hi, hfl i hi⟩, ?_, ?_⟩
+      · have := hcm.2
+        rw [ht, flatten_leaf] at this
+        exact (sortedKeys_items _).mp this
+      · rw [ht, flatten_leaf]
+        congr 1
+        apply List.map_congr_left
+        intro i hi
+        unfold entOf
+        rw [if_neg (by have := heven i hi; omega)]
 
 /-- **the reader returns the content of the bucket tree** (top bucket paged) -/
 theorem decode_bk (f : File) (ps hwm fu fuel : Nat) (b : Bk) (ph : Phys)
@@ -78,6 +503,9 @@ theorem decode_bk (f : File) (ps hwm fu fuel : Nat) (b : Bk) (ph : Phys)
     (hd : fu * (fu + 1) ≤ fuel) :
     ∃ ph', decodeTree f ps hwm fuel b.root ph = ((match absBk b fu [] b with | .bkt _ e => e | .val _ => []), ph') ∧
       ph'.errors = ph.errors := by
-  sorry
+  obtain ⟨_, hp, _⟩ := bucket_ok f ps hwm hps fu b b [] ho hl
+  obtain ⟨_, E, hv, hdec⟩ := hp hr
+  rw [hv]
+  exact hdec fuel ph (Nat.le_trans (need_le fu) hd)
 
 end Bolt.C12Bk
